@@ -69,6 +69,10 @@ type world struct {
 	forceOwner *cOwner // genOp(kOpen): use this open-owner
 	windowSeq  uint32  // reentryWindow: seqid of the owner's latest request
 	inWindow   bool
+
+	// presetAt: 'other' field of every state ID whose seqid was placed
+	// next to its wrap-around (preset.go) -> number of that script step.
+	presetAt map[string]int
 }
 
 func newWorld(rt *rapid.T, prof *profile, nClients int) *world {
@@ -193,6 +197,7 @@ func fmtStep(s *opSpec) string {
 		}
 	}
 	add("c", s.Client, s.Kind != "advance" && s.Kind != "release")
+	add("seqid_set_to", s.Size, s.Kind == kPreset)
 	add("long", s.LongID, s.LongID != "")
 	add("verf", s.Verifier, s.Kind == kSetclientid)
 	add("cid", fmt.Sprintf("%#x", s.ClientID), s.ClientID != 0)
